@@ -557,6 +557,29 @@ fn fam_emit() -> Report {
         let ie = InitialExpr::Single([x.clone()]);
         r.check(norm(&ie.to_token_stream().to_string()) == xs, &format!("InitialExpr `{}`", o), "initial value not printed verbatim");
     }
+    // finite-domain predicates (exhaustive, hence complete; also the replay inputs for the corresponding Verus obligations)
+    {
+        use join_impl::chain::group::Combinator as C;
+        let all = [C::Map, C::Dot, C::Filter, C::Inspect, C::Then, C::AndThen, C::Or, C::OrElse, C::MapErr, C::Initial, C::Chain, C::Flatten,
+            C::Collect, C::Enumerate, C::Find, C::Fold, C::TryFold, C::Unzip, C::Zip, C::Partition, C::FilterMap, C::FindMap, C::UNWRAP];
+        let ten = [C::Map, C::AndThen, C::Filter, C::Inspect, C::FilterMap, C::Find, C::FindMap, C::Partition, C::OrElse, C::MapErr];
+        for c in all.iter() {
+            r.check(c.can_be_wrapper() == ten.contains(c), &format!("Combinator::{:?}.can_be_wrapper()", c), &format!("got {}, documented wrapper-capable: {}", c.can_be_wrapper(), ten.contains(c)));
+        }
+        let x = e("f");
+        let pes: Vec<(ProcessExpr, bool)> = vec![
+            (ProcessExpr::Map([x.clone()]), true), (ProcessExpr::Then([x.clone()]), true), (ProcessExpr::AndThen([x.clone()]), true), (ProcessExpr::Filter([x.clone()]), true),
+            (ProcessExpr::FindMap([x.clone()]), true), (ProcessExpr::Inspect([x.clone()]), true), (ProcessExpr::Chain([x.clone()]), true), (ProcessExpr::FilterMap([x.clone()]), true),
+            (ProcessExpr::Find([x.clone()]), true), (ProcessExpr::Fold([x.clone(), x.clone()]), true), (ProcessExpr::Partition([x.clone()]), true),
+            (ProcessExpr::TryFold([x.clone(), x.clone()]), true), (ProcessExpr::Zip([x.clone()]), true), (ProcessExpr::Dot([x.clone()]), false),
+        ];
+        for (pe, want) in pes {
+            r.check(pe.is_replaceable() == want, &format!("{:?}.is_replaceable()", norm(&format!("{:?}", pe)).chars().take(40).collect::<String>()),
+                &format!("got {}, but operators with expression operands hoist block operands and member access never does (want {})", pe.is_replaceable(), want));
+            let n = pe.inner_exprs().map(|v| v.len()).unwrap_or(0);
+            r.check(n == if matches!(pe, ProcessExpr::Fold(_) | ProcessExpr::TryFold(_)) { 2 } else { 1 }, "inner_exprs exposes all operands", "wrong operand count");
+        }
+    }
     // end to end: spelling -> parser -> generator: the expansion contains the documented call
     let e2e = [
         ("|> f", ". map (f)"), ("=> f", ". and_then (f)"), ("?> f", ". filter (f)"), (".. f()", ". f ()"), (">. f()", ". f ()"), ("<| f", ". or (f)"),
